@@ -144,7 +144,17 @@ fn get_model_record_from_params(
         .get_config_serde_optional::<FloatCachePolicyConfig>(&"float_cache_policy", parent_key)?;
 
     let cache = match cache_config {
-        Some(config) => Some(FloatCachePolicy::from_config(config)?),
+        Some(config) => {
+            // the cache is keyed by the two inputs of the prediction model, speed and grade
+            if config.key_precisions.len() != 2 {
+                return Err(CompassConfigurationError::UserConfigurationError(format!(
+                    "float_cache_policy of {} must have one key_precisions entry for each of speed and grade, found {}",
+                    parent_key,
+                    config.key_precisions.len()
+                )));
+            }
+            Some(FloatCachePolicy::from_config(config)?)
+        }
         None => None,
     };
 
